@@ -261,6 +261,21 @@ def write_evidence(prop, tier, seed, results, violations, known_lines, wall, cra
     samples = []
     for (job, nm), d in list(names.items())[:12]:
         samples.append(dict(job=job, obligation=nm, path_instances=d["instances"], discharged=d["unsat"], solver_s=round(d["secs"], 3)))
+    bnames = {}
+    for r in bounded_jobs:
+        for o in r["obligations"]:
+            d = bnames.setdefault((r["job"], o["name"]), dict(instances=0, unsat=0, backend=o.get("backend")))
+            d["instances"] += 1
+            d["unsat"] += o["status"] == "unsat"
+    for (job, nm), d in list(bnames.items())[:max(0, 12 - len(samples))]:
+        samples.append(dict(job=job, obligation=nm, bounded=True, instances=d["instances"], held=d["unsat"], backend=d["backend"]))
+    # mechanical scan: every `.assume(` in this property's contract module (callee-contract stubs and preconditions), reported, not hidden
+    assume_sites = []
+    try:
+        src = open(os.path.join(VERIF, "contracts", prop.lower() + ".py")).read().splitlines()
+        assume_sites = ["contracts/%s.py:%d: %s" % (prop.lower(), i + 1, l.strip()[:140]) for i, l in enumerate(src) if ".assume(" in l]
+    except OSError:
+        pass
     fns = [dict(job=r["job"], target=r["target"], level=r.get("level"), bound=r.get("bound"), paths=r.get("paths"),
                 path_kinds=r.get("path_kinds"), loops_cut=r.get("loops_cut"), n_loops=r.get("n_loops"),
                 obligations=len({o["name"] for o in r["obligations"]}),
@@ -284,11 +299,15 @@ def write_evidence(prop, tier, seed, results, violations, known_lines, wall, cra
         traces_validated_against_impl=sum(r.get("native_runs", 0) for r in results),
         undecided_clauses=undecided,
         known_findings=known_lines,
-        samples=samples or [dict(note="no proof-level obligations in this run")],
+        samples=samples or [dict(note="no obligations in this run")],
+        assume_sites=assume_sites,
+        bounded_obligations=len(bnames), bounded_held=sum(1 for d in bnames.values() if d["unsat"] == d["instances"]),
         explanation=getattr(mod, "EXPLANATION", ""),
         evaluations=inst + sum(r.get("native_runs", 0) for r in results),
-        distinct_nontrivial=n_obl,
-        rule="one case = one named proof obligation (aggregated over the paths on which it is generated); non-trivial = sent to the solver",
+        distinct_nontrivial=n_obl + len(bnames),
+        rule=("one case = one named obligation, aggregated over the paths / generated inputs on which it arises; proof-level (P/C) obligations are sent to "
+              "the solver or the polynomial-identity checker and counted under obligations/discharged; bounded (B) obligations are clauses evaluated on "
+              "every symbolic shape or generated input of the stated bound and counted under bounded_obligations/bounded_held, never as proved"),
     )
     ev = dict(property_id=prop, tier=tier if tier in ("quick", "thorough") else "quick", seed=seed, level=level, coverage=cov,
               assumptions=assumptions, wall_s=round(wall, 2), violations=len({(v[0], v[1]) for v in violations}),
